@@ -512,13 +512,16 @@ impl RunState {
             // puts
             0x22 => {
                 // could probably rewrite with iterators but idk if worth
-                for addr in self.reg(0).. {
+                let mut addr = self.reg(0);
+                loop {
                     let chr_raw = self.mem(addr);
                     let chr_ascii = (chr_raw & 0xFF) as u8 as char;
                     if chr_ascii == '\0' {
                         break;
                     }
                     Output::Normal.print(chr_ascii);
+                    // Addresses wrap around the top of memory
+                    addr = addr.wrapping_add(1);
                 }
                 stdout().flush().unwrap();
             }
@@ -531,7 +534,8 @@ impl RunState {
             }
             // putsp
             0x24 => {
-                'string: for addr in self.reg(0).. {
+                let mut addr = self.reg(0);
+                'string: loop {
                     let chr_raw = self.mem(addr);
                     for chr in [chr_raw >> 8, chr_raw & 0xFF] {
                         let chr_ascii = chr as u8 as char;
@@ -540,6 +544,8 @@ impl RunState {
                         }
                         Output::Normal.print(chr_ascii);
                     }
+                    // Addresses wrap around the top of memory
+                    addr = addr.wrapping_add(1);
                 }
                 stdout().flush().unwrap();
             }
